@@ -10,7 +10,7 @@
 (*                                                                                            *)
 (* Events (Appendix A of DESIGN.md, trimmed by lib/checks/c13.py to the fields used):        *)
 (*  reset  run, cfg (SpawnAbs.Want's record with real strings; pre = configured results of   *)
-(*         the pre-exec closures), facts: dio = the driver's descriptors 0..2 [link, acc],   *)
+(*         the pre-exec closures; planned = the failures the plan causes), facts: dio = the driver's descriptors 0..2 [link, acc],   *)
 (*         raw = the descriptors handed over as Stdio::RawFd, pipes = the caller's ends of   *)
 (*         Stdio::MakePipe streams as found in the returned Child, pgrp                       *)
 (*  fork parent child | sys task nr ret inj | exec task path argv envp ret                   *)
@@ -27,12 +27,12 @@ vars == <<i, st>>
 NoImage == [prog |-> "-", argv |-> << >>, envp |-> << >>, cwd |-> "-", io |-> <<"-", "-", "-">>,
             uid |-> -2, gid |-> -2, pg |-> "-"]
 NoFacts == [dio |-> << >>, raw |-> << >>, pipes |-> << >>, pgrp |-> 0]
-NoCfg == [bin |-> "-", envAlt |-> << >>]
+NoCfg == [bin |-> "-", envAlt |-> << >>, planned |-> << >>]
 Fresh(run, c, facts) ==
-    [run |-> run, c |-> [c EXCEPT !.envAlt = Range(@)], facts |-> facts,
+    [run |-> run, c |-> [c EXCEPT !.envAlt = Range(@), !.planned = Range(@)], facts |-> facts,
      returns |-> << >>, failed |-> {}, child |-> "none", execd |-> FALSE, image |-> NoImage,
      reaped |-> FALSE, cstatus |-> 0, waitres |-> NoWait,
-     execargs |-> << >>, anomalies |-> << >>]
+     execargs |-> << >>, attempt |-> {}, anomalies |-> << >>]
 
 Init == i = 1 /\ st = Fresh(0, NoCfg, NoFacts)
 
@@ -78,15 +78,25 @@ OnSys(s, e) ==
         s1 == [s EXCEPT !.failed = @ \cup failedStep]
     IN  IF e.task > 2 THEN Anomaly(s, "ExtraTask")
         ELSE IF e.nr = "wait4" /\ e.ret > 0 /\ e.reaped = 2 THEN [s1 EXCEPT !.reaped = TRUE]
+        ELSE IF e.nr = "chdir" /\ e.task = 2 /\ e.path # s.c.cwd   \* attempted with another directory
+        THEN [s1 EXCEPT !.attempt = @ \cup {"cwd"}]
         ELSE s1
+
+\* what the child asks the kernel to execute must be what was configured - whether or not the
+\* call then succeeds
+AttemptMismatch(c, e) ==
+    (IF e.path = c.bin THEN {} ELSE {"prog"})
+    \cup (IF e.argv = WantArgv(c) THEN {} ELSE {"argv"})
+    \cup (IF \E x \in WantEnvs(c) : SameBag(e.envp, x) THEN {} ELSE {"envp"})
 
 OnExec(s, e) ==
     IF e.task # 2 THEN Anomaly(s, "ExecByOtherTask")
-    ELSE IF e.ret = 0
-    THEN [s EXCEPT !.execd = TRUE, !.child = "prog",
-                   !.image = [NoImage EXCEPT !.prog = e.path, !.argv = e.argv, !.envp = e.envp],
-                   !.execargs = <<e.path, e.argv, e.envp>>]
-    ELSE [s EXCEPT !.failed = @ \cup {[proc |-> "C", step |-> "execve", errno |-> 0 - e.ret]}]
+    ELSE LET s0 == [s EXCEPT !.attempt = @ \cup AttemptMismatch(s.c, e)]
+         IN  IF e.ret = 0
+             THEN [s0 EXCEPT !.execd = TRUE, !.child = "prog",
+                             !.image = [NoImage EXCEPT !.prog = e.path, !.argv = e.argv, !.envp = e.envp],
+                             !.execargs = <<e.path, e.argv, e.envp>>]
+             ELSE [s0 EXCEPT !.failed = @ \cup {[proc |-> "C", step |-> "execve", errno |-> 0 - e.ret]}]
 
 OnDump(s, e) ==
     IF ~s.execd THEN Anomaly(s, "DumpWithoutExec")
@@ -127,11 +137,19 @@ Apply(s, e) ==
 ObsOf(s) == [returns |-> s.returns, failed |-> s.failed, child |-> s.child, execd |-> s.execd,
              image |-> s.image, reaped |-> s.reaped, cstatus |-> s.cstatus, waitres |-> s.waitres]
 
+\* In the controlled environment of the check a step fails only when the plan makes it fail
+\* (the injected failure, a configured missing directory / program, a failing closure): any
+\* other failed call was caused by the implementation itself (wrong descriptor, bad pointer...)
+Unplanned(s) == {f \in s.failed : ~\E p \in s.c.planned : p.proc = f.proc /\ p.step = f.step /\ p.errno = f.errno}
+
 Verdict(s) ==
     LET o == ObsOf(s)
         v == Violated(s.c, o, TRUE)
+             \cup (IF s.attempt = {} THEN {} ELSE {"AttemptIsConfigured"})
+             \cup (IF Unplanned(s) = {} THEN {} ELSE {"OnlyPlannedStepsFail"})
     IN  [run |-> s.run, viol |-> v, anomalies |-> s.anomalies,
-         mismatch |-> IF s.execd THEN ImageMismatch(s.c, s.image) ELSE {},
+         mismatch |-> (IF s.execd THEN ImageMismatch(s.c, s.image) ELSE {}) \cup s.attempt,
+         unplanned |-> Unplanned(s),
          returns |-> [k \in DOMAIN s.returns |-> [proc |-> s.returns[k].proc, res |-> s.returns[k].res, code |-> s.returns[k].code]],
          failed |-> s.failed, child |-> s.child, execd |-> s.execd, reaped |-> s.reaped,
          cstatus |-> s.cstatus, waitres |-> s.waitres, io |-> s.image.io]
